@@ -27,7 +27,8 @@ def call_ops(rng, kind, path, base_idx):
 
 KINDS = ["create_dir", "create_file", "append", "remove_file", "remove_dir", "exists", "metadata", "read_dir", "open_read"]
 SETUPS = [[], ["createdir 0:j61"], ["createdir 0:j61", "createdir 0:j612f62"],
-          ["createdir 0:j61", "createfile 0:j612f66", "hdrop 1001"], ["createfile 0:j66", "hdrop 1000"]]
+          ["createdir 0:j61", "createfile 0:j612f66", "hwrite 1001 6f6c64", "hdrop 1001"],
+          ["createfile 0:j66", "hwrite 1000 6f6c64", "hdrop 1000"], ["createfile 0:j66", "hdrop 1000"]]
 
 
 def gen_progs(rng, tier):
@@ -42,6 +43,11 @@ def gen_progs(rng, tier):
         (["createdir 0:j61"], [["create_dir", "a/b"], ["remove_dir", "a/b"]], [["read_dir", "a"], ["exists", "a/b"]]),
         (["createfile 0:j66", "hdrop 1000"], [["append", "f"]], [["append", "f"]]),
         (["createfile 0:j66", "hdrop 1000"], [["create_file", "f"]], [["open_read", "f"], ["metadata", "f"]]),
+        # the same on a file that HAS content: what is committed stays visible while handles are in flight
+        (["createfile 0:j66", "hwrite 1000 6f6c64", "hdrop 1000"], [["append", "f"]], [["append", "f"]]),
+        (["createfile 0:j66", "hwrite 1000 6f6c64", "hdrop 1000"], [["append", "f"]], [["open_read", "f"], ["metadata", "f"]]),
+        (["createfile 0:j66", "hwrite 1000 6f6c64", "hdrop 1000"], [["create_file", "f"]], [["open_read", "f"], ["append", "f"]]),
+        (["createfile 0:j66", "hwrite 1000 6f6c64", "hdrop 1000"], [["append", "f"]], [["append", "f"]], [["metadata", "f"]]),
         # a writer that publishes late, while the other thread replaces its file by a directory with a child
         ([], [["create_file", "a"]], [["remove_file", "a"], ["create_dir", "a"], ["create_file", "a/b"]]),
         (["createfile 0:j61", "hdrop 1000"], [["append", "a"]], [["remove_file", "a"], ["create_dir", "a"], ["create_dir", "a/b"]]),
@@ -61,9 +67,10 @@ def gen_progs(rng, tier):
     setup = ["createdir 0:j61", "setatime 0:j61 777"]
     progs.append(conclib.Prog("c16o2", CFG, setup, [call_ops(rng, "open_read", "a", 0), call_ops(rng, "metadata", "a", 0)],
                               "explore 6000"))
-    for i, (setup, t0, t1) in enumerate(directed):
+    for i, entry in enumerate(directed):
+        setup, ts = entry[0], entry[1:]
         threads = []
-        for t in (t0, t1):
+        for t in ts:
             ops = []
             for (k, p) in t:
                 ops += call_ops(rng, k, p, len(ops))
@@ -72,7 +79,7 @@ def gen_progs(rng, tier):
     # the frame proper: every ordered pair of calls on the same entry, on a directory and its child, on a child and its
     # directory - from a state in which all of them can succeed (/a a directory, /a/f a file, /a/b a directory)
     pair_kinds = KINDS
-    pair_setup = ["createdir 0:j61", "createfile 0:j612f66", "hdrop 1001", "createdir 0:j612f62"]
+    pair_setup = ["createdir 0:j61", "createfile 0:j612f66", "hwrite 1001 6f6c64", "hdrop 1001", "createdir 0:j612f62"]
     relations = [("a/f", "a/f"), ("a", "a/f"), ("a/f", "a"), ("a/b", "a/b"), ("a", "a/b")]
     k = 0
     for (p0, p1) in relations:
@@ -100,7 +107,7 @@ def gen_progs(rng, tier):
 
 
 RULE = ("all interleavings at lock-acquisition granularity (depth-first enumeration of the scheduling choices at the "
-        "verif-hooks yield points, one before every RwLock acquisition of MemoryFS) of 14 directed programs around the "
+        "verif-hooks yield points, one before every RwLock acquisition of MemoryFS) of 18 directed programs around the "
         "check-then-act windows, of the pair frame (every ordered pair of the nine calls on the same "
         "entry, on a directory and its child, on a child and its directory; a third of the frame in the quick tier, all of "
         "it in the thorough tier) and of random programs of 2-3 threads x 1-2 calls drawn from create_dir, create_file+write, "
